@@ -20,7 +20,7 @@
 (***************************************************************************)
 EXTENDS Integers, Sequences, FiniteSets, TLC, Json, IOUtils, SequencesExt
 
-CONSTANTS Methods, Hosts, Segs, LastSegs, Queries, MaxSegs, CaseFile, ResultFile
+CONSTANTS Methods, Hosts, Segs, LastSegs, Queries, MaxSegs, CaseFile, ResultFile, E2EFile
 
 Lower(h) == CASE h = "H.EXAMPLE" -> "h.example" [] h = "Other.Example" -> "other.example" [] OTHER -> h
 Decode(s) == CASE s = "a%7Cb" -> "a|b" [] s = "%61" -> "a" [] s = "a%3Fb" -> "a?b" [] OTHER -> s
@@ -72,4 +72,22 @@ Judge == PrintT(<<"KEY-RESULT", N, Cardinality(Hexes), Cardinality(Collisions), 
                   IF Collisions = {} THEN {} ELSE Example(CHOOSE h \in Collisions : TRUE),
                   IF Splits = {} THEN {} ELSE ExampleS(CHOOSE s \in Splits : TRUE),
                   Cardinality({i \in 1..N : HexOf(i) \in {"unparsed"}}) >>)
+-----------------------------------------------------------------------------
+(* end to end: every target went through the proxy twice; the origin's answers name the case whose request     *)
+(* reached it.  [id, s1, e1, s2, e2, x2] per case; E2EFile.summary holds the number of GET requests the origin *)
+(* saw during the first pass.                                                                                  *)
+EResults == ndJsonDeserialize(E2EFile)
+ESummary == ndJsonDeserialize(E2EFile \o ".summary")[1]
+EN == Len(EResults)
+ECase(i) == CasesIn[EResults[i].id]
+\* answered, and with the answer to a request of the same identity (never somebody else's entry)
+EWrong == {i \in 1..EN : LET r == EResults[i] IN
+              \/ r.s1 # 200 \/ r.s2 # 200 \/ r.e1 = 0 \/ r.e2 = 0
+              \/ CasesIn[r.e1].loose # ECase(i).loose \/ CasesIn[r.e2].loose # ECase(i).loose}
+\* every identity was fetched exactly once: a GET identity split over two entries costs a second fetch
+GetIdentities == {ECase(i).strict : i \in {j \in 1..EN : ECase(j).method = "GET"}}
+EJudge == PrintT(<<"KEY-E2E-RESULT", EN, Cardinality(EWrong), ESummary.getContactsFirstPass, Cardinality(GetIdentities),
+                   IF EWrong = {} THEN <<>> ELSE LET i == CHOOSE x \in EWrong : \A y \in EWrong : x <= y
+                                                 IN <<ECase(i).target, ECase(i).host, EResults[i],
+                                                      IF EResults[i].e2 > 0 THEN CasesIn[EResults[i].e2].target ELSE "">> >>)
 =============================================================================
